@@ -3354,12 +3354,21 @@ static Token *function(Token *tok, Type *basety, VarAttr *attr) {
     if (!fn->is_static && attr->is_static)
       error_tok(tok, "static declaration follows a non-static declaration");
     fn->is_definition = fn->is_definition || equal(tok, "{");
+
+    // [C11 6.7.4p7] A declaration without `inline` or with `extern`
+    // turns an inline definition into an external definition.
+    if (fn->is_inline_only && !attr->is_static &&
+        (!attr->is_inline || attr->is_extern)) {
+      fn->is_inline_only = false;
+      fn->is_static = false;
+    }
   } else {
     fn = new_gvar(name_str, ty);
     fn->is_function = true;
     fn->is_definition = equal(tok, "{");
     fn->is_static = attr->is_static || (attr->is_inline && !attr->is_extern);
     fn->is_inline = attr->is_inline;
+    fn->is_inline_only = attr->is_inline && !attr->is_static && !attr->is_extern;
   }
 
   if (!(fn->is_static && fn->is_inline))
